@@ -528,6 +528,18 @@ def rule_assign_constraints(chk, prog, tier):
         ien = w.mkenum(w.t('uint')); ien.obj.f[('incomplete',)] = 1; ien.obj.f[('base',)] = None
         for nm, t_ in (('void-lvalue', w.t('void')), ('incomplete-struct', inc), ('incomplete-enum', ien)):
             ops.append((nm, w.temp(t_, nm), {'k': 'incomplete'}))
+        # structures and unions that contain a const-qualified member (directly, in a nested member, as array element) are not modifiable lvalues
+        def member(t_, q, nxt=None):
+            mo = Obj('member', 'heap'); mo.f.update({('name',): None, ('type',): t_, ('qual',): q, ('offset',): 0, ('bits', 'before'): 0, ('bits', 'after'): 0, ('next',): nxt}); return Ptr(mo, ())
+        def rec(kind, members):
+            t_ = w.mkstruct(size=8, align=4, kind=kind); t_.obj.f[('u', 'structunion', 'members')] = members; return t_
+        carr = it.call('mkarraytype', [u['int'], QC, 2])
+        inner = rec('TYPESTRUCT', member(u['int'], QC))
+        CS = {'cstruct:direct': rec('TYPESTRUCT', member(u['int'], 0, member(u['int'], QC))), 'cstruct:nested': rec('TYPESTRUCT', member(u['int'], 0, member(inner, 0))),
+              'cstruct:array': rec('TYPESTRUCT', member(carr, 0)), 'cstruct:union': rec('TYPEUNION', member(u['int'], 0, member(u['char'], QC))),
+              'okstruct:ptr-to-const': rec('TYPESTRUCT', member(cint, 0, member(u['int'], 0)))}
+        for nm, t_ in CS.items():
+            ops.append((nm, w.temp(t_, nm), {'k': nm}))
         cur = {}; seq = {'i': 0}
         tokobj = it.gobj('tok')
         def settok(k):
@@ -572,6 +584,9 @@ def rule_assign_constraints(chk, prog, tier):
                 ok = (lp[0] == rp[0] or 'void' in (lp[0], rp[0])) and (rp[1] & ~lp[1]) == 0
         elif L['k'] in ('struct', 'struct2'): ok = R['k'] == L['k']
         elif L['k'] == 'incomplete': ok = False           # not a modifiable lvalue (6.3.2.1p1)
+        elif L['k'].startswith(('cstruct:', 'okstruct:')):
+            if R['k'] != L['k']: continue                 # judged for an operand of the very same type only
+            ok = L['k'].startswith('okstruct:')
         else: continue
         if R['k'] == 'incomplete': continue      # using the value of an incomplete object is judged where it is loaded, not here
         r.instance(got == ('ok' if ok else 'error'), 'assign:%s=%s' % (ln, rn), 'expr.c:%s' % fn.get('line'), 'C11 6.5.16.1: %s; cproc: %s' % ('valid' if ok else 'constraint violation, must be diagnosed (with a diagnostic, not an internal failure)', got))
